@@ -207,13 +207,72 @@ def body_pairs(ctx):
     ctx.outcome('two-failures')
 
 
+OWN_MODES = ['ValueError', 'NameError', 'sys.exit', 'Syntax', 'Bare:KeyError', 'Finally', 'BadStr', 'Recursion', 'open w',
+             'import pedal', 'CloseStdout', 'Depth:101']
+
+
+def body_own_report(ctx):
+    """The failing execution is asked for on a Report of the caller's own (report= on every command): the one runtime
+    feedback and the sandbox exception belong to that report; the global report and its sandbox see nothing."""
+    from pedal.core.report import Report
+    from pedal.core.submission import Submission
+    mode = OWN_MODES[ctx.choose(len(OWN_MODES), 'mode')]
+    entry = ('run', 'call', 'evaluate')[ctx.choose(3, 'entry')]
+    threaded = bool(ctx.choose(2, 'threaded'))
+    if mode in sc.COMPILE_FAIL and entry != 'run':
+        return
+    case = {'mode': mode, 'entry': entry, 'threaded': threaded, 'report': 'own'}
+    ctx.observe(repr(case))
+    ctx.set_sample(case)
+    ctx.mark_nontrivial(repr(case))
+    main, files = sc.build_files(sc.MODES[mode], entry)
+    sc.cmds.clear_report()
+    sc.cmds.contextualize_report("print('global submission')\n")
+    gsb = sc.sb_cmds.get_sandbox()
+    mine = Report()
+    sc.cmds.contextualize_report(Submission(files=files, main_file='answer.py', main_code=main), report=mine)
+    sb = sc.sb_cmds.get_sandbox(report=mine)
+    sb.threaded = threaded
+    sb.allowed_time = 20
+    snap = sc.GlobalState()
+    g0 = (len(sc.MAIN_REPORT.feedback), len(sc.MAIN_REPORT.ignored_feedback))
+    try:
+        if entry in ('call', 'evaluate'):
+            sc.sb_cmds.run(report=mine)
+        n0 = len(mine.feedback)
+        ctx.step((entry, mode, 'report=own'))
+        if entry == 'run':
+            sc.sb_cmds.run(report=mine)
+        elif entry == 'call':
+            sc.sb_cmds.call('target', report=mine)
+        else:
+            sc.sb_cmds.evaluate('target()', report=mine)
+    except BaseException as e:   # noqa
+        ctx.fail({'symptom': 'exception escaped into the grader', 'exception': type(e).__name__, 'mode': mode,
+                  'entry': 'own report', 'threaded': threaded}, case=case, message=str(e)[:200])
+        snap.force()
+        return
+    if snap.diff():
+        snap.force()
+    new = [f for f in mine.feedback[n0:] if f.category == 'runtime']
+    if len(new) != 1 or sc.sb_cmds.get_exception(report=mine) is None:
+        ctx.fail({'symptom': 'not exactly one runtime feedback on the own report', 'count': len(new), 'mode': mode,
+                  'threaded': threaded}, case=case)
+    if (len(sc.MAIN_REPORT.feedback), len(sc.MAIN_REPORT.ignored_feedback)) != g0 or gsb.exception is not None:
+        ctx.fail({'symptom': 'a failure on an own report was recorded on the global report', 'mode': mode}, case=case,
+                 labels=[f.label for f in sc.MAIN_REPORT.feedback[g0[0]:]][:4])
+    ctx.outcome('own-report')
+
+
 def bounds(tier):
     return {'pairs': '%d modes x %d entries, ordered pairs in one sandbox, threaded or not' % (len(PAIR_MODES), len(PAIR_ENTRIES)),
             'modes': len(MODE_NAMES), 'entries': ENTRIES, 'threaded': [False, True], 'tracers': TRACERS}
 
 
 def phases(tier):
-    return [Phase('terminations', body, setup=_setup, chunk=100, horizon_s=60,
+    own = Phase('own-report', body_own_report, setup=_setup, chunk=50, horizon_s=60,
+                describe='termination modes through run/call/evaluate with report=<caller-owned Report>')
+    return [own, Phase('terminations', body, setup=_setup, chunk=100, horizon_s=60,
                   describe='mode x entry x threaded x tracer, full product'),
             Phase('two-failures', body_pairs, setup=_setup, chunk=100, horizon_s=60,
                   describe='ordered pairs of failing executions in one sandbox')]
